@@ -1363,6 +1363,21 @@ def quantile(x, q, axis=None):
     if isinstance(q, SymF64): return _reducer("quantile", x, (), (q.e,))
     return _reducer("quantile", x, (float(q),))
 
+def _drop_nan(x):
+    if not isinstance(x, ndarray): x = array(x)
+    if x.dtype.kind != "f": return x
+    keep = [c for c in x._cells() if not ((z3.is_true(z3.simplify(z3.fpIsNaN(c)))) or
+                                          (not z3.is_false(z3.simplify(z3.fpIsNaN(c))) and symx.ctx().branch(z3.fpIsNaN(c))))]
+    return ndarray._make(keep, x.dtype)
+
+# nan-aware reducers: the plain reducer on the non-NaN elements (NumPy's documented definition)
+def nanmean(x, axis=None): return _reducer("mean", _drop_nan(x))
+def nanmedian(x, axis=None): return _reducer("median", _drop_nan(x))
+def nanstd(x, axis=None, ddof=0): return _reducer("std", _drop_nan(x), (int(ddof),))
+def nanvar(x, axis=None, ddof=0): return _reducer("var", _drop_nan(x), (int(ddof),))
+def nansum(x, axis=None): return sum(_drop_nan(x))
+def nanquantile(x, q, axis=None): return quantile(_drop_nan(x), q)
+
 class _Vectorized:
     def __init__(self, f, otypes=None):
         self.f = f; self.otypes = otypes
@@ -1386,6 +1401,24 @@ def _str_len(a):
         out.append(z3.BitVecVal(len(c), 64) if isinstance(c, str) else c.length())
     return ndarray._make(out, dtype(int), type(a))
 strings.str_len = _str_len
+
+class StrFnToken(str):
+    """result cell of an uninterpreted numpy.strings function: remembers function, input cell and arguments"""
+    def __new__(cls, name, cell, args):
+        s = str.__new__(cls, f"<np.strings.{name}>"); s.name = name; s.cell = cell; s.args = args
+        return s
+
+def _strings_getattr(name):
+    """every other numpy.strings function is uninterpreted: element-wise, result depends on (function, element, arguments)"""
+    if name.startswith("_"): raise AttributeError(name)
+    def f(a, *args, **kw):
+        if not isinstance(a, ndarray) or a.dtype.kind not in "TU":
+            raise TypeError("string operation on non-string array")
+        cells = [StrFnToken(name, c, (args, tuple(sorted(kw.items())))) for c in a._cells()]
+        return ndarray._make(cells, dtype(object), type(a))
+    f.__name__ = name
+    return f
+strings.__getattr__ = _strings_getattr
 
 random = _types.ModuleType("numpy.random")
 
